@@ -22,9 +22,11 @@ Inductive oevent :=
 | OOffline (n : N) (l : list pin)    (* OfflineState of n's data *)
 | ORecovered (n m0 : N) (o : option (list pin))  (* R3: n's process was killed and started again on its data; it is ready and serves o;
                                             m0 = operations acknowledged before the kill (one more may have been in flight) *)
-| OReady (n m0 : N) (q : bool) (o : option (list pin)).  (* C17: Consensus.State on n right after its WaitForSync returned; m0 = entries
+| OReady (n m0 : N) (q : bool) (o : option (list pin))  (* C17: Consensus.State on n right after its WaitForSync returned; m0 = entries
                                          committed when the AddPeer that admitted n returned; q = raft's AppliedIndex equalled
                                          its LastIndex at that moment *)
+| OStopped (n : N).               (* Consensus.Shutdown returned on n: its final snapshot (if one was written: the OSnapReq / OPersist before) is
+                                     taken and Raft is stopped under shutdownLock, which commit() holds (RLock) around CommitOp *)
 
 (* ---- equality on observables ---- *)
 Definition optZN_eqb (a b : option (Z * N)) : bool :=
@@ -116,6 +118,7 @@ Definition model_step (cmds : list logop) (lg : list N) (cl : cluster) (e : oeve
            | None, None => true
            | _, _ => false
            end)
+  | OStopped _ => (cl, true)       (* the model has no lock: a member may stop at any point of a schedule; pass 3 (stop_run) judges *)
   end.
 Fixpoint model_run (cmds : list logop) (lg : list N) (cl : cluster) (es : list oevent) : bool :=
   match es with
@@ -181,6 +184,7 @@ Definition spec_step (cmds : list logop) (lg : list N) (sn : list snode) (e : oe
                | Some l => let a := Nat.max (s_applied (sgetn (nn n) sn)) (nn m0) in
                            existsb (fun m => pins_eqb (map snd (replay (firstn m ops))) l) (seq a (S (length lg - a)))
                | None => false end)
+  | OStopped _ => (lg, sn, true)
   end.
 Fixpoint spec_run (cmds : list logop) (lg : list N) (sn : list snode) (es : list oevent) : bool :=
   match es with
@@ -196,8 +200,44 @@ Definition in_premise (op : logop) : bool :=
   | LUnpin p => true
   | _ => false
   end.
+(* ---- pass 3: a member that shut down cleanly has lost nothing that was acknowledged at it ----
+   "An operation acknowledged as committed ... survives a restart": what a stopped member leaves on disk for OfflineState
+   (state export, upgrades) is its newest snapshot. Consensus.Shutdown takes the final snapshot and stops Raft under the
+   write side of shutdownLock; commit() holds the read side around CommitOp ("do not shut down while committing"): no
+   operation is acknowledged at the member between its final snapshot and its stop. On the observations: when Shutdown has
+   returned on n (OStopped n), every command acknowledged with committer n lies below the label of some snapshot n has persisted.
+   Bookkeeping per member (association lists, absent = 0): entries given, label of the requested snapshot, highest label
+   persisted, 1 + the highest log position acknowledged at it (a command is looked up at its FIRST position: the weakest reading). *)
+Definition nget (n : N) (m : list (N * nat)) : nat := match aget n m with Some x => x | None => O end.
+Fixpoint first_pos (c : N) (lg : list N) : option nat :=
+  match lg with
+  | [] => None
+  | x :: r => if x =? c then Some O else match first_pos c r with Some j => Some (S j) | None => None end
+  end.
+Record stopst := mkstopst { t_lg : list N; t_given : list (N * nat); t_pend : list (N * nat); t_lbl : list (N * nat); t_ack : list (N * nat) }.
+Definition stopst0 : stopst := mkstopst [] [] [] [] [].
+Definition stop_step (s : stopst) (e : oevent) : stopst * bool :=
+  match e with
+  | OCommit c => (mkstopst (t_lg s ++ [c]) (t_given s) (t_pend s) (t_lbl s) (t_ack s), true)
+  | OApply n j => (mkstopst (t_lg s) (aput n (S (nn j)) (t_given s)) (t_pend s) (t_lbl s) (t_ack s), true)
+  | ORestore n _ _ lbl => (mkstopst (t_lg s) (aput n (nn lbl) (t_given s)) (t_pend s) (t_lbl s) (t_ack s), true)
+  | ORestart n => (mkstopst (t_lg s) (aput n O (t_given s)) (adel n (t_pend s)) (t_lbl s) (t_ack s), true)
+  | ORecovered n _ _ => (mkstopst (t_lg s) (aput n O (t_given s)) (adel n (t_pend s)) (t_lbl s) (t_ack s), true)
+  | OSnapReq n true => (mkstopst (t_lg s) (t_given s) (aput n (nget n (t_given s)) (t_pend s)) (t_lbl s) (t_ack s), true)
+  | OPersist n =>
+      (mkstopst (t_lg s) (t_given s) (adel n (t_pend s))
+                (match aget n (t_pend s) with Some l => aput n (Nat.max l (nget n (t_lbl s))) (t_lbl s) | None => t_lbl s end) (t_ack s), true)
+  | OAck c n =>
+      (mkstopst (t_lg s) (t_given s) (t_pend s) (t_lbl s)
+                (match first_pos c (t_lg s) with Some j => aput n (Nat.max (S j) (nget n (t_ack s))) (t_ack s) | None => t_ack s end), true)
+  | OStopped n => (s, Nat.leb (nget n (t_ack s)) (nget n (t_lbl s)))
+  | _ => (s, true)
+  end.
+Fixpoint stop_run (s : stopst) (es : list oevent) : bool :=
+  match es with [] => true | e :: r => let '(s', ok) := stop_step s e in ok && stop_run s' r end.
+
 Definition spec_okb (k : N) (cmds : list logop) (es : list oevent) : bool :=
-  if forallb in_premise cmds then spec_run cmds [] (repeat snode0 (nn k)) es else true.
+  if forallb in_premise cmds then spec_run cmds [] (repeat snode0 (nn k)) es && stop_run stopst0 es else true.
 
 (* ---- known-finding recognisers: the SHAPE of the input, never the verdict ---- *)
 (* S19: some submitted pin carries origins (undecodable from msgpack) *)
